@@ -89,7 +89,7 @@ class Env:
         })
         one = g.GraphQLInputObjectType("One", {
             "a": IF(g.GraphQLString),
-            "b": IF(g.GraphQLInt),
+            "b": IF(g.GraphQLInt, out_name="b_out"),
             "p": IF(inner),
         }, is_one_of=True)
         named = {"Int": g.GraphQLInt, "Float": g.GraphQLFloat, "String": g.GraphQLString, "Boolean": g.GraphQLBoolean,
